@@ -417,15 +417,17 @@ class FitBase(FileIOMixin, object):
     def _on_error_change(self):
         """Mark all error nodes in :py:attr:`~_BASIC_ERROR_NAMES` for updates in the nexus."""
         self._fitter.reset_minimizer()
+        self._loaded_result_dict = None
         for _error_name in self._BASIC_ERROR_NAMES:
             self._nexus.get(_error_name).mark_for_update()
-        if self._implicit_no_errors:
+        if self._implicit_no_errors and self.has_errors:
             _cost_function_class, _kwargs = self._STRING_TO_COST_FUNCTION["chi2_covariance"]
             self._cost_function = _cost_function_class(**_kwargs)
             self._cost_function_pointwise = self._cost_function.pointwise_version
             self._init_cost_function(existing_behavior="replace")
-            self._fitter.parameter_to_minimize = self._cost_function.name
             self._implicit_no_errors = False
+        # the pointwise cost selected by an earlier do_fit is only valid for a diagonal covariance matrix
+        self._fitter.parameter_to_minimize = self._cost_function.name
 
     def _on_constraint_change(self):
         """The list behind the node 'parameter_constraints' has changed: the cost and any fit results are outdated."""
@@ -501,6 +503,9 @@ class FitBase(FileIOMixin, object):
                 self._param_model = _old_param_model
             raise
         self._param_model._on_error_change_callback = self._on_error_change
+        # the new data (and the new model) may carry other uncertainties: invalidate everything derived from the old ones
+        self._on_error_change()
+        self._nexus.get(self._MODEL_NAME).mark_for_update()
 
     @property
     def data_error(self):
